@@ -15,19 +15,20 @@ No well-formedness of `body` is needed for this: it follows from byte conservati
 (`parser_conserves`, proved once for ALL programs, so it also covers whatever the translator regenerates) plus
 `expectZeroSize` and the drain on kafka errors (`discardOnKafkaError`, the D2 fix).
 
-Operations outside that theorem, and why:
-  * listOffsets (`readOffset`): returns the kafka error from inside the partition loop without a drain; aligned only
-    because a list-offsets response to a one-partition request has one topic with one partition, the error code being
-    followed by the two int64 of the same entry: `listOffsets_aligned_wf` (∀ topic name, partition, error code,
-    timestamp, offset, trailing bytes — for the regenerated operation by `listOffsets_gen_shape`);
-    `listOffsets_two_partitions_counterexample` shows why the shape hypothesis is needed, `listOffsets_wf_example`
-    is a concrete instance.
+Operations that needed more than the table entry, and why:
+  * listOffsets (`readOffset`): inside the main theorems since the fix C11-D34 (the kafka error left the partition
+    loop without a drain: `listOffsets_two_partitions_counterexample` keeps that shape); `listOffsets_aligned_wf`
+    adds that every frame of the shape a broker answers a one-partition request with (∀ topic name, partition, error
+    code, timestamp, offset, trailing bytes) gives ok / that kafka error with exactly the frame consumed — for the
+    regenerated operation by `listOffsets_gen_shape`; `listOffsets_wf_example` is a concrete instance.
   * fetch (`ReadBatchWith`/`Batch`): `fetch_aligned_or_closed`, for every message-set reader that conserves bytes (the
     hypothesis is discharged for the reader stack of message_reader.go: `stackBody_conserves`); unconditional since the
     fix C11-D32 (`fetch_at_watermark_counterexample` keeps the unfixed shape).
-  * apiVersions: no `expectZeroSize`, no close on error in the Go code, so nothing can be said about arbitrary bytes;
-    `apiVersions_aligned_wf`: on every well-formed v0 frame (any error code, any number of entries, anything after
-    the frame) the result is ok / that kafka error and exactly the frame is consumed.
+  * apiVersions: inside the main theorems since the fix C11-D33 (`expectZeroSize` and close on non-kafka errors, both
+    regenerated; before it nothing could be said about arbitrary bytes: `apiVersions_trailing_counterexample`);
+    `apiVersions_aligned_wf` adds that on every well-formed v0 frame (any error code, any number of entries, anything
+    after the frame) the result is ok / that kafka error and exactly the frame is consumed — the count of entries is
+    checked before the loop (`.arrB 6`, regenerated from `arrSize < 0 || int(arrSize) > size/6`).
 The D2 shape (no drain) is kept as `d2_regression_counterexample`: the theorem is false for it.
 -/
 import KafkaVerif.Lemmas.ConnOps
@@ -164,7 +165,7 @@ theorem closed_stays_failed_fetch (fixed : Bool) (v : Nat) (off : Int) (b : Body
 /-! ### the operation table satisfies the hypotheses (facts regenerated from /repo on every run) -/
 
 /-- operations covered by `aligned_or_closed` -/
-def coveredOps : List String := doOps.filter (· != "listOffsets")
+def coveredOps : List String := doOps      -- all of them since list-offsets drains on kafka errors (fix C11-D34)
 
 def goodFor (name : String) (vs : List Nat) : Bool :=
   match specOf name with
@@ -192,6 +193,104 @@ theorem fetch_fixed : fetchFixed = true := by decide
 /-- `do` and `Batch.close` close the connection on exactly the non-kafka errors (regenerated; `connFetch` closes on every
 failed outcome, and failed = non-kafka there) -/
 theorem close_rules_hold : Gen.ConnLegacy.doClosesNonKafka = true ∧ Gen.ConnLegacy.batchClosesNonKafka = true := by decide
+
+/-! ### a size prefix below 4 (negative ones included)
+
+conn.go waitResponse hands `size − 4` to the read closure; with a prefix below 4 (the correlation id alone takes 4
+bytes) that is ≤ 0 and every `readIntN` / `discardN` of read.go answers errShortRead without touching the stream: the
+operation fails and `do` closes the Conn.  This removes the assumption "size prefix ≥ 4" from the main theorems: a
+fully delivered frame either has an honest prefix (`aligned_or_closed`) or a prefix below 4 (`bad_size_closes`) — a
+prefix that is ≥ 4 but wrong is some other frame's honest prefix as far as the client can tell. -/
+
+/-- the program, run on a frame of announced size 0 (and nothing to read), stops with errShortRead having touched
+nothing — a closed computation, decided per operation and version below -/
+def shortAtZero (ps : List Step) (v : Nat) : Bool :=
+  match runSteps ps { ver := v } ⟨[], 0⟩ with
+  | (.error .shortRead, ⟨[], 0⟩) => true
+  | _ => false
+
+/-- … and then it does so whatever the stream holds (locality: the program cannot look beyond the announced size) -/
+theorem opRead_zero (o : OpSpec) (v : Nat) (topic inp : Bytes) (h : shortAtZero (o.parse v) v = true) :
+    opRead o v topic ⟨inp, 0⟩ = (.fail .shortRead, ⟨inp, 0⟩) := by
+  have hl := runSteps_local (o.parse v) inp { ver := v } ⟨[], 0⟩ (by simp [Enough])
+  simp only [ext, List.nil_append] at hl
+  unfold shortAtZero at h
+  unfold opRead
+  rw [hl]
+  cases hr : runSteps (o.parse v) { ver := v } ⟨[], 0⟩ with
+  | mk r s' =>
+    rw [hr] at h
+    obtain ⟨i, z⟩ := s'
+    cases r with
+    | ok _ => simp at h
+    | error e =>
+      cases e <;> cases i <;> cases z <;> simp at h
+      simp
+
+def startsFor (name : String) (vs : List Nat) : Bool :=
+  match specOf name with
+  | some o => vs.all (fun v => shortAtZero (o.parse v) v)
+  | none => false
+
+/-- every operation of the table (list-offsets included), every negotiated version, on the regenerated programs -/
+theorem ops_short_at_zero : doOps.all (fun n => startsFor n (versionsFor n)) = true := by decide
+
+/-- waitResponse on a header for the expected id whose size prefix is below 4: the read closure gets size 0 -/
+theorem wait_bad_size (c : Conn) (hdr rest : Bytes) (hstream : c.stream = hdr ++ rest) (hlen : hdr.length = 8)
+    (hsize : beInt (hdr.take 4) < 4) (hid : beInt (hdr.drop 4) = c.nextId) :
+    waitResponse c = .ok (0, rest) := by
+  have h1 : ¬ c.stream.length < 8 := by rw [hstream]; simp only [List.length_append]; omega
+  have h2 : c.stream.take 4 = hdr.take 4 := by
+    rw [hstream, List.take_append_of_le_length (by omega)]
+  have h3 : (c.stream.drop 4).take 4 = hdr.drop 4 := by
+    rw [hstream, List.drop_append_of_le_length (by omega)]
+    rw [List.take_append_of_le_length (by simp; omega)]
+    exact List.take_of_length_le (by simp; omega)
+  have h4 : c.stream.drop 8 = rest := by
+    rw [hstream, ← hlen, List.drop_left]
+  have hz : (beInt (hdr.take 4) - 4).toNat = 0 := by omega
+  unfold waitResponse
+  simp only [h1, ↓reduceIte, h2, h3, hid, h4, ne_eq, not_true_eq_false, hz]
+
+/-- a response for the expected correlation id whose size prefix is below 4: the operation fails (errShortRead) and the
+Conn is closed — for every such prefix, negative ones included, and whatever follows. -/
+theorem bad_size_closes (o : OpSpec) (v : Nat) (topic : Bytes) (c : Conn) (hdr rest : Bytes)
+    (hstart : shortAtZero (o.parse v) v = true) (hclose : o.closeOnErr = true) (hopen : c.closed = false)
+    (hstream : c.stream = hdr ++ rest) (hlen : hdr.length = 8)
+    (hsize : beInt (hdr.take 4) < 4) (hid : beInt (hdr.drop 4) = c.nextId) :
+    (connDo o v topic c).1 = .fail .shortRead ∧ (connDo o v topic c).2.closed = true := by
+  have hw := wait_bad_size c hdr rest hstream hlen hsize hid
+  unfold connDo
+  simp only [hopen, Bool.false_eq_true, ↓reduceIte, hw, opRead_zero o v topic rest hstart]
+  simp [Outcome.isFail, hclose]
+
+/-- fetch: the three header programs stop with errShortRead at size 0 (ReadBatchWith maps it to io.ErrUnexpectedEOF) -/
+theorem fetch_headers_short_at_zero : [2, 5, 10].all (fun v => shortAtZero (fetchHeader v) v) = true := by decide
+
+theorem bad_size_closes_fetch (fixed : Bool) (v : Nat) (off : Int) (b : Body) (c : Conn) (hdr rest : Bytes)
+    (hstart : shortAtZero (fetchHeader v) v = true) (hopen : c.closed = false)
+    (hstream : c.stream = hdr ++ rest) (hlen : hdr.length = 8)
+    (hsize : beInt (hdr.take 4) < 4) (hid : beInt (hdr.drop 4) = c.nextId) :
+    (connFetch fixed v off b c).1 = .fail .unexpectedEOF ∧ (connFetch fixed v off b c).2.closed = true := by
+  have hw := wait_bad_size c hdr rest hstream hlen hsize hid
+  have hl := runSteps_local (fetchHeader v) rest { ver := v } ⟨[], 0⟩ (by simp [Enough])
+  simp only [ext, List.nil_append] at hl
+  unfold shortAtZero at hstart
+  have hr : fetchRead fixed v off b ⟨rest, 0⟩ = (.fail .unexpectedEOF, ⟨rest, 0⟩) := by
+    unfold fetchRead
+    rw [hl]
+    cases hr : runSteps (fetchHeader v) { ver := v } ⟨[], 0⟩ with
+    | mk r s' =>
+      rw [hr] at hstart
+      obtain ⟨i, z⟩ := s'
+      cases r with
+      | ok _ => simp at hstart
+      | error e =>
+        cases e <;> cases i <;> cases z <;> simp at hstart
+        simp
+  unfold connFetch
+  simp only [hopen, Bool.false_eq_true, ↓reduceIte, hw, hr]
+  simp [Outcome.isFail]
 
 /-! ### the regenerated parser programs are the Kafka layouts (Spec/ConnFrames.lean, transcribed independently) -/
 
@@ -411,16 +510,22 @@ theorem reader_stack_counterexamples :
 
 end ReaderStackSec
 
-/-! ### listOffsets: the one operation that relies on the shape of a well-formed frame -/
+/-! ### listOffsets: inside the main theorems since it drains on kafka errors (fix C11-D34); the shape theorem stays -/
+
+/-- list-offsets as it was before the fix C11-D34: the kafka error leaves the partition loop without a drain -/
+def listOffsetsUnfixed : OpSpec :=
+  { parse := fun _ => readOffsetClosure Gen.ConnLegacy.partitionOffsetV1, drain := false, expectZero := true, post := .none, closeOnErr := true }
 
 /-- two partitions in one list-offsets response (never sent for a one-partition request), error in the first:
-the second entry stays unread on a Conn that is kept — the reason `listOffsets` is outside `aligned_or_closed`. -/
+without the drain the second entry stayed unread on a Conn that is kept; the current (regenerated) operation skips it. -/
 def listOffsets2 : Bytes :=
   [0,0,0,1, 0,1,116, 0,0,0,2, 0,0,0,0, 0,6, 0,0,0,0,0,0,0,0, 0,0,0,0,0,0,0,0,
                                0,0,0,1, 0,0, 0,0,0,0,0,0,0,0, 0,0,0,0,0,0,0,9]
 theorem listOffsets_two_partitions_counterexample :
-    ((specOf "listOffsets").map fun o => (opRead o 1 [116] ⟨listOffsets2, listOffsets2.length⟩).1) = some (.kafka 6) ∧
-    ((specOf "listOffsets").map fun o => (opRead o 1 [116] ⟨listOffsets2, listOffsets2.length⟩).2.sz) = some 22 := by
+    (opRead listOffsetsUnfixed 1 [116] ⟨listOffsets2, listOffsets2.length⟩).1 = .kafka 6 ∧
+    (opRead listOffsetsUnfixed 1 [116] ⟨listOffsets2, listOffsets2.length⟩).2.sz = 22 ∧
+    ((specOf "listOffsets").map fun o => (opRead o 1 [116] ⟨listOffsets2 ++ [9], listOffsets2.length⟩)) =
+      some (.kafka 6, ⟨[9], 0⟩) := by
   decide
 
 theorem readInt_app (a r : Bytes) (n sz : Nat) (h : a.length = n) (hn : n ≤ sz) :
@@ -444,7 +549,7 @@ theorem discardN_app (a r : Bytes) (n : Int) (sz : Nat) (h : (a.length : Int) = 
 timestamp, offset; any bytes after the frame.  Result: ok / that kafka error, frame exactly consumed. -/
 theorem listOffsets_aligned_wf (o : OpSpec) (topic c1 lenb name c2 part err ts off rest : Bytes)
     (hparse : o.parse 1 = readOffsetClosure [.int 4, .err, .int 8, .int 8])
-    (hdrain : o.drain = false) (hzero : o.expectZero = true) (hpost : o.post.eval topic = fun _ => none)
+    (hzero : o.expectZero = true) (hpost : o.post.eval topic = fun _ => none)
     (h1 : c1.length = 4) (h1v : beInt c1 = 1) (hl : lenb.length = 2) (hn : beInt lenb = name.length)
     (h2 : c2.length = 4) (h2v : beInt c2 = 1)
     (hp : part.length = 4) (he : err.length = 2) (ht : ts.length = 8) (ho : off.length = 8) :
@@ -475,13 +580,13 @@ theorem listOffsets_aligned_wf (o : OpSpec) (topic c1 lenb name c2 part err ts o
   simp only []
   by_cases hz : beInt err = 0
   · simp [hz, hzero, hpost]
-  · simp [hz, hdrain]
+  · simp [hz]
 
 /-- the regenerated list-offsets operation has exactly the shape `listOffsets_aligned_wf` is about -/
 theorem listOffsets_gen_shape : ∃ o, specOf "listOffsets" = some o ∧
-    o.parse 1 = readOffsetClosure [.int 4, .err, .int 8, .int 8] ∧ o.drain = false ∧ o.expectZero = true ∧
+    o.parse 1 = readOffsetClosure [.int 4, .err, .int 8, .int 8] ∧ o.expectZero = true ∧
     (∀ t, o.post.eval t = fun _ => none) :=
-  ⟨_, rfl, rfl, by decide, by decide, fun _ => rfl⟩
+  ⟨_, rfl, rfl, by decide, fun _ => rfl⟩
 
 /-! ### the read lock is released on every exit path (regenerated facts), a leaked lock blocks forever -/
 
@@ -584,7 +689,7 @@ theorem iter_entries (es : List (Bytes × Bytes × Bytes)) (h : EntriesWF es) (r
     rw [h2]
     simp [Ctx.errs]
 
-/-- ApiVersions v0 (conn.go ApiVersions, no expectZeroSize): on every well-formed frame — any error code, any number
+/-- ApiVersions v0 (conn.go ApiVersions): on every well-formed frame — any error code, any number
 of entries, anything after the frame — the result is ok / that kafka error and exactly the frame is consumed. -/
 theorem apiVersions_aligned_wf (topic err cnt rest : Bytes) (es : List (Bytes × Bytes × Bytes))
     (he : err.length = 2) (hc : cnt.length = 4) (hcv : beInt cnt = es.length) (hes : EntriesWF es) :
@@ -602,10 +707,36 @@ theorem apiVersions_aligned_wf (topic err cnt rest : Bytes) (es : List (Bytes ×
   have hsz : 2 + (4 + 6 * es.length) - 2 - 4 = 6 * es.length + 0 := by omega
   rw [hsz]
   rw [h1]
-  simp only [Bool.false_and, Bool.false_eq_true, ↓reduceIte, Post.eval, h2]
+  have hb : ¬ ((es.length : Int) < 0 ∨ (es.length : Int) > ((6 * es.length + 0) / 6 : Nat)) := by omega
+  rw [if_neg hb]
+  simp only [Nat.add_zero, not_true_eq_false, and_false, ↓reduceIte, Post.eval, h2]
   by_cases hz : beInt err = 0
   · simp [hz, Ctx.errs]
   · simp [hz, Ctx.errs]
+
+/-- ApiVersions as it was before the fix C11-D33: no `expectZeroSize`, Conn kept on every error -/
+def apiVersionsUnfixed : OpSpec :=
+  { parse := fun _ => Gen.ConnLegacy.apiVersionsParseGen, drain := false, expectZero := false, post := .firstErr [], closeOnErr := false }
+
+/-- an ApiVersions v0 response (request 1) with one entry and 4 more bytes in the frame -/
+def avFrame : Bytes := [0,0,0,20, 0,0,0,1] ++ [0,0, 0,0,0,1, 0,3, 0,0, 0,9] ++ [7,7,7,7]
+
+/-- C11-D33, the unfixed shape: ok, Conn kept, 4 bytes of the frame left in the stream → the next operation reads
+mid-frame (io.ErrNoProgress); and a cut entry list: error, Conn kept and misaligned all the same -/
+theorem apiVersions_trailing_counterexample :
+    (connDo apiVersionsUnfixed 0 [] ⟨avFrame ++ d2Next, 1, false⟩).1 = .ok ∧
+    (connDo apiVersionsUnfixed 0 [] ⟨avFrame ++ d2Next, 1, false⟩).2 = ⟨[7,7,7,7] ++ d2Next, 2, false⟩ ∧
+    (connDo (simpleOp "heartbeat" Gen.ConnLegacy.heartbeatResponseV0) 0 []
+        (connDo apiVersionsUnfixed 0 [] ⟨avFrame ++ d2Next, 1, false⟩).2).1 = .fail (.other "io.ErrNoProgress") ∧
+    (connDo apiVersionsUnfixed 0 [] ⟨[0,0,0,12, 0,0,0,1, 0,0, 0,0,0,1, 0,3] ++ d2Next, 1, false⟩).2.closed = false := by
+  decide
+
+/-- the same frames through the current (regenerated) operation: an error and the Conn is closed -/
+theorem apiVersions_fixed_example :
+    ((specOf "apiVersions").map fun o => ((connDo o 0 [] ⟨avFrame ++ d2Next, 1, false⟩).1 matches .fail _,
+        (connDo o 0 [] ⟨avFrame ++ d2Next, 1, false⟩).2.closed,
+        (connDo o 0 [] ⟨[0,0,0,12, 0,0,0,1, 0,0, 0,0,0,1, 0,3] ++ d2Next, 1, false⟩).2.closed)) = some (true, true, true) := by
+  decide
 
 /-- a well-formed one-partition list-offsets error frame (error 3 = UnknownTopicOrPartition): aligned -/
 def listOffsets1 : Bytes :=
